@@ -54,6 +54,13 @@ type PIDZero struct {
 	stateSubscribers   sync.Map
 	subscriberMutex    sync.Mutex
 
+	// launchMu orders every wg.Go of Run() before the wg.Wait() of Shutdown(): once
+	// launchClosed is set, Run() adds nothing to wg and starts no further runnable.
+	launchMu     sync.Mutex
+	launchClosed bool
+	runEntered   bool // Run() has been called
+	launched     int  // runnables[:launched] have been started by Run()
+
 	startupTimeout  time.Duration
 	startupInitial  time.Duration
 	shutdownTimeout time.Duration
@@ -179,18 +186,36 @@ func (p *PIDZero) String() string {
 	return fmt.Sprintf("Supervisor<runnables: %d>", len(p.runnables))
 }
 
+// launch starts f on the supervisor's WaitGroup unless Shutdown has already begun (a WaitGroup
+// must not be added to concurrently with Wait). isRunnable marks f as the next runnable's goroutine.
+func (p *PIDZero) launch(f func(), isRunnable bool) bool {
+	p.launchMu.Lock()
+	defer p.launchMu.Unlock()
+	if p.launchClosed {
+		return false
+	}
+	if isRunnable {
+		p.launched++
+	}
+	p.wg.Go(f)
+	return true
+}
+
 // Run starts all runnables and listens for OS signals to handle graceful shutdown or reload.
 func (p *PIDZero) Run() error {
 	p.logger.Debug("Starting...")
 	defer func() {
 		p.logger.Info("Goodbye!")
 	}()
+	p.launchMu.Lock()
+	p.runEntered = true
+	p.launchMu.Unlock()
 	p.listenForSignals()
 
 	// Start a single reload manager if any runnable is reloadable
 	for _, r := range p.runnables {
 		if _, ok := r.(Reloadable); ok {
-			p.wg.Go(p.startReloadManager)
+			p.launch(p.startReloadManager, false)
 			break
 		}
 	}
@@ -198,7 +223,7 @@ func (p *PIDZero) Run() error {
 	// Start a single state monitor if any runnable reports state
 	for _, r := range p.runnables {
 		if _, ok := r.(Stateable); ok {
-			p.wg.Go(p.startStateMonitor)
+			p.launch(p.startStateMonitor, false)
 			break
 		}
 	}
@@ -206,20 +231,24 @@ func (p *PIDZero) Run() error {
 	// Start a single shutdown manager if any runnable can trigger shutdown
 	for _, r := range p.runnables {
 		if _, ok := r.(ShutdownSender); ok {
-			p.wg.Go(p.startShutdownManager)
+			p.launch(p.startShutdownManager, false)
 			break
 		}
 	}
 
 	// Start each service in sequence
 	for _, r := range p.runnables {
-		p.wg.Go(func() {
+		started := p.launch(func() {
 			err := p.startRunnable(r)
 			if err != nil {
 				p.logger.Error("Runnable exited with error", "runnable", r, "error", err)
 				p.errorChan <- err
 			}
-		})
+		}, true)
+		if !started {
+			p.logger.Debug("Shutdown already in progress, not starting", "runnable", r)
+			break
+		}
 
 		// if this Runnable implements the Stateable block here until IsRunning()
 		if stateable, ok := r.(Stateable); ok {
@@ -317,8 +346,19 @@ func (p *PIDZero) Shutdown() {
 		p.logger.Info("Graceful shutdown has been initiated...")
 		signal.Stop(p.signalChan) // stop listening for new signals
 
+		// From here on Run() starts nothing. When Run() is driving the start-up, only the
+		// runnables it has started are stopped: Stop() on a runnable whose Run() will never
+		// be called may block forever.
+		p.launchMu.Lock()
+		p.launchClosed = true
+		stopCount := len(p.runnables)
+		if p.runEntered {
+			stopCount = p.launched
+		}
+		p.launchMu.Unlock()
+
 		// Stop each runnable in reverse order
-		for i := len(p.runnables) - 1; i >= 0; i-- {
+		for i := stopCount - 1; i >= 0; i-- {
 			r := p.runnables[i]
 
 			// Log the state before stopping if available
